@@ -112,7 +112,7 @@ func c19f(clause, trigger, format string, a ...any) *check.Finding {
 
 // awaitForwards waits until no forwarding goroutine is left in the SUT.
 func awaitForwards(p *sut.Proc) bool {
-	for round := 0; round < 400; round++ {
+	for round := 0; round < 2500; round++ {
 		dump, err := p.Goroutines()
 		if err != nil {
 			return false
@@ -210,7 +210,7 @@ func runReceiptScenario(c *check.Ctx, bin, mode string, nConn int, cases []recei
 	}
 	wg.Wait()
 	if !awaitForwards(p) {
-		if mode == "down" || mode == "slow" {
+		if mode == "down" || mode == "slow" || mode == "hang" || mode == "drop" {
 			// bounded wait only; no verdict is drawn from it
 		} else {
 			c.Inconc("C19: forwarding goroutines did not finish")
@@ -246,7 +246,7 @@ func runReceiptScenario(c *check.Ctx, bin, mode string, nConn int, cases []recei
 		switch {
 		case !rc.Valid && len(got) > 0:
 			c.Report(c19f("forward/invalid-receipt-forwarded", rc.Name, "the %s triple (receipt %q hash %x signature %x) fails the independent check but was POSTed to the credit service", rc.Name, rc.Receipt, rc.Hash, rc.Sig))
-		case rc.Valid && len(got) == 0 && st.tooBusy == 0:
+		case rc.Valid && len(got) == 0 && st.tooBusy == 0 && mode != "drop":
 			c.Report(c19f("forward/valid-receipt-not-forwarded", trig, "the valid receipt %q was accepted but never POSTed to the (reachable) credit service", rc.Receipt))
 		case rc.Valid && len(got) > 1:
 			c.Report(c19f("forward/more-than-once", trig, "the receipt %q was POSTed %d times", rc.Receipt, len(got)))
@@ -351,8 +351,12 @@ func partReceipts(c *check.Ctx, a *acc) {
 		n     int
 	}
 	var scs []sc
-	for i, mode := range []string{"ok", "ok", "slow", "500", "down", "ok"} {
-		scs = append(scs, sc{mode, []int{1, 4, 2, 3, 2, 16}[i], c.Pick(56, 280)})
+	for i, mode := range []string{"ok", "ok", "slow", "500", "down", "ok", "hang", "drop"} {
+		n := c.Pick(56, 280)
+		if mode == "hang" || mode == "drop" {
+			n = 28 // each forward takes seconds
+		}
+		scs = append(scs, sc{mode, []int{1, 4, 2, 3, 2, 16, 4, 4}[i], n})
 	}
 	allCases := make([][]receiptCase, len(scs))
 	for i := range scs {
@@ -375,7 +379,7 @@ func partReceipts(c *check.Ctx, a *acc) {
 	for _, rc := range allCases[0][:8] {
 		samples = append(samples, map[string]any{"engine": "C19 receipts", "case": rc.Name, "receipt": rc.Receipt, "independently_valid": rc.Valid})
 	}
-	a.add(st.submitted, nontrivial, "C19: valid triples (harness-signed) and every single-field corruption (hash bit flip, receipt edit, signature of 64/66 bytes, recovery id >= 4, r or s zero / = N, empty fields) submitted from 1-16 connections with the credit service ok / slow / answering 500 / down, plus a deterministic queue-full scenario (verifier held at a gate); a case is a submitted triple, non-trivial when its forwarding (or absence) at the fake credit service was decided after all forwarding goroutines had ended and compared byte for byte", samples...)
+	a.add(st.submitted, nontrivial, "C19: valid triples (harness-signed) and every single-field corruption (hash bit flip, receipt edit, signature of 64/66 bytes, recovery id >= 4, r or s zero / = N, empty fields) submitted from 1-16 connections with the credit service ok / slow / hanging for seconds / dropping the connection after reading / answering 500 / down, plus a deterministic queue-full scenario (verifier held at a gate); a case is a submitted triple, non-trivial when its forwarding (or absence) at the fake credit service was decided after all forwarding goroutines had ended and compared byte for byte", samples...)
 }
 
 func init() {
